@@ -25,6 +25,7 @@ pub mod c19;
 pub mod c20;
 pub mod c14b;
 pub mod c11d;
+pub mod c02d;
 
 thread_local! {
     static EXPECT_PANIC: Cell<bool> = const { Cell::new(false) };
